@@ -328,9 +328,15 @@ def canon_impl_world(case, obs, table):
         else:
             res = {"t": "ok"}
         cell = None
-        if op[0] == "setprop" and o["info"].get("cell_changed"):
-            now = o["info"]["cell_now"]
-            cell = table.id(now[0]) if isinstance(now, list) and len(now) == 1 else "?"
+        if op[0] == "setprop":
+            # the closure cell as it is now: for a types=() declaration anything but () is a latched class
+            info = o["info"]
+            kind = decl_kinds().get((info["owner"], op[2]), (None, None))[1]
+            now = info["cell_now"]
+            if kind == "selfType" and now != []:
+                cell = table.id(now[0]) if isinstance(now, list) and len(now) == 1 else "?"
+            elif info.get("cell_changed"):
+                cell = "?"
         out.append({"res": res, "queue": o["state"]["queue"], "log": o["state"]["log"], "cell": cell})
     return out
 
@@ -499,7 +505,7 @@ def classify(ops, full_obs, verdict):
         t = op_target(o)
         if t is not None and (related(ops, t) & rel):
             copy_family = True
-    latch = any(x.get("info", {}).get("cell_changed") for x in full_obs[: i + 1])
+    latch = any(x.get("info", {}).get("cell_changed") or x.get("state", {}).get("latched") for x in full_obs[: i + 1])
     if latch:
         cls = "setter-latch"
     elif op[0] in ("read", "readtext", "readfix") and before.get("log"):
@@ -715,7 +721,7 @@ def report_pair(chk, prefix, call, fresh, got, obs):
         chk.count("flaky:pair-not-reproduced")
         return
     seq = sequence_outcomes(small + [call])
-    latch = any(o.get("info", {}).get("cell_changed") for o in seq if isinstance(o, dict))
+    latch = any(o.get("info", {}).get("cell_changed") or o.get("state", {}).get("latched") for o in seq if isinstance(o, dict))
     before = seq[-2].get("state", {}) if len(seq) > 1 else {}
     info = seq[-1].get("info", {})
     site = f"{info.get('owner')}.{call[2]}" if call[0] == "setprop" and info.get("owner") else call[0]
@@ -809,6 +815,8 @@ def run(chk):
         "harness tools/props/c17.py + tools/vlib/c17_impl.py: a fork of a process that only imported MontePy equals a fresh interpreter (validated on every run against real subprocesses)",
     ]
     leanio.prove(chk, "MontePyVerif.Props.C17", THEOREMS, NS)
+    if chk.thorough:
+        leanio.leanchecker(chk, ["MontePyVerif.Props.C17"])
     drv = leanio.Driver(chk, "drv_c17")
     impl()  # import MontePy now (and never execute it in this process)
 
@@ -1016,10 +1024,12 @@ def run(chk):
 
 def replay(chk, payload):
     chk.rule = "replay of one stored case"
-    case = payload.get("case", {})
+    case = payload
     if payload.get("verdict") == "no-failing-input-found":
-        case = payload["no_longer_checks"][0]["case"] or {}
-    case = case.get("case", case) if "kind" not in case else case
+        case = next((b["case"] for b in payload["no_longer_checks"] if b.get("case")), {})
+    for _ in range(3):  # replay files nest the case: {"case": {"case": {...}, "verdict": ...}}
+        if "kind" not in case and isinstance(case.get("case"), dict):
+            case = case["case"]
     impl()
     kind = case.get("kind")
     chk.note_case(case)
